@@ -629,11 +629,11 @@ def c23_picture(fmt, seed, kind, pic_num):
     return pic
 
 
-def c23_apply(fs, side_dir, index, dims, fault):
-    """Apply one at-rest fault to the stored files of picture ``index`` in
-    ``side_dir``; returns a label of what was hit."""
-    rawp = "%s/picture_%d.raw" % (side_dir, index)
-    jsp = "%s/picture_%d.json" % (side_dir, index)
+def c23_apply(fs, stem, dims, fault):
+    """Apply one at-rest fault to the stored files ``stem``.raw / ``stem``.json;
+    returns a label of what was hit."""
+    rawp = stem + ".raw"
+    jsp = stem + ".json"
     k = fault["k"]
     if k in ("sample_bit", "padding_bit"):
         raw = bytearray(fs.get(rawp))
@@ -792,7 +792,7 @@ class C23(Spec):
         lx = exc(d)
         cx = exc(dc)
         fmt = {"w": w, "h": h, "cdf": cdf, "pcm": pcm, "luma_exc": lx, "luma_off": rng.choice([0, 16]), "cd_exc": cx, "cd_off": rng.choice([0, (cx + 1) // 2])}
-        npics = rng.choice([1, 1, 1, 2, 3])
+        npics = rng.choice([1, 1, 1, 2, 3, 4])
         r = rng.random()
         nf = 0 if r < 0.2 else 1 if r < 0.7 else rng.choice([2, 3])
         faults = []
@@ -813,10 +813,19 @@ class C23(Spec):
             elif k == "json_vp":
                 f["key"] = rng.choice(["frame_rate_numer", "top_field_first", "luma_offset", "clean_width", "pixel_aspect_ratio_numer"])
             faults.append(f)
-        return {
+        case = {
             "fmt": fmt, "npics": npics, "pic_seed": rng.randrange(1 << 30), "pic_kind": rng.choice(["noise", "noise", "max", "zero", "ramp"]),
             "pic_num": rng.choice([0, 1, 7, (1 << 32) - 1, rng.randrange(1 << 32)]), "faults": faults, "mode": "dir" if npics > 1 or rng.random() < 0.3 else "file",
         }
+        if rng.random() < 0.4:
+            # file names: the index may be spelt differently in the two
+            # directories and need not start at 0; directory listings come back
+            # in an arbitrary (seeded) order, as from a real file system
+            pats = ["picture_%d", "pic_%02d", "%d", "frame%03d", "p_%05d", "x2_%d"]
+            case["names"] = [rng.choice(pats), rng.choice(pats)]
+            case["first"] = rng.choice([0, 1, 8, 9, 98, 99, 999, 7])
+            case["listdir_seed"] = rng.randrange(1 << 30)
+        return case
 
     def shrink(self, case):
         for fl in shrink_list(case["faults"]):
@@ -825,16 +834,26 @@ class C23(Spec):
             yield dict(case, npics=1)
         if case["pic_kind"] != "zero":
             yield dict(case, pic_kind="zero")
+        if case.get("names"):
+            yield {k: v for k, v in case.items() if k not in ("names", "first", "listdir_seed")}
 
     def execute(self, case):
         stats = Counter()
         fmt = case["fmt"]
-        events = [("case", sorted(fmt.items()), case["npics"], case["pic_seed"], case["pic_kind"], case["pic_num"], repr(case["faults"]), case["mode"])]
+        events = [("case", sorted(fmt.items()), case["npics"], case["pic_seed"], case["pic_kind"], case["pic_num"], repr(case["faults"]), case["mode"], case.get("names"), case.get("first"), case.get("listdir_seed"))]
         vp = c23_vp(fmt)
         pcm = PictureCodingModes(fmt["pcm"])
         dims = c23_dims(fmt)
         fs = S.SimFS("/sim")
+        fs.listdir_seed = case.get("listdir_seed")
         fs.dirs.update({"/sim/a", "/sim/b"})
+        names = case.get("names") or ["picture_%d", "picture_%d"]
+        first = case.get("first", 0)
+
+        def nm(side, i):
+            # the two directories may spell the picture index differently
+            return "/sim/%s/%s" % (side, names[0 if side == "a" else 1] % (first + i))
+
         pics = [c23_picture(fmt, case["pic_seed"] + i, case["pic_kind"], (case["pic_num"] + i) & 0xFFFFFFFF) for i in range(case["npics"])]
         depth_class = "d%d/%d" % (dims["Y"][2], dims["C1"][2])
         key0 = "%s|cdf%d|pcm%d" % (depth_class, fmt["cdf"], fmt["pcm"])
@@ -847,13 +866,13 @@ class C23(Spec):
             try:
                 for side in ("a", "b"):
                     for i, pic in enumerate(pics):
-                        file_format.write(pic, vp, pcm, "/sim/%s/picture_%d.raw" % (side, i))
+                        file_format.write(pic, vp, pcm, nm(side, i) + ".raw")
                 for i, pic in enumerate(pics):
-                    got, gvp, gpcm = file_format.read("/sim/a/picture_%d.json" % i)
+                    got, gvp, gpcm = file_format.read(nm("a", i) + ".json")
                     if got != pic or dict(gvp) != dict(vp) or gpcm != pcm:
                         return viol("C23/round-trip-differs", "file_format.read(write(x)) != x for picture %d (depths %s)" % (i, depth_class))
-                    hgot, used = h_read_raw(fs.get("/sim/a/picture_%d.raw" % i), dims)
-                    if used != len(fs.get("/sim/a/picture_%d.raw" % i)) or any(hgot[c] != pic[c] for c in ("Y", "C1", "C2")):
+                    hgot, used = h_read_raw(fs.get(nm("a", i) + ".raw"), dims)
+                    if used != len(fs.get(nm("a", i) + ".raw")) or any(hgot[c] != pic[c] for c in ("Y", "C1", "C2")):
                         return viol("C23/on-disk-format", "raw file written for picture %d does not hold the samples in the documented planar little-endian layout" % i)
             except Exception as e:  # noqa: BLE001
                 return viol(exc_sig("C23/write-read-raised", e), "write/read raised:\n%s" % short_tb(e))
@@ -861,7 +880,7 @@ class C23(Spec):
             applied = []
             for f in case["faults"]:
                 try:
-                    lab = c23_apply(fs, "/sim/b", f["pic"] % case["npics"], dims, f)
+                    lab = c23_apply(fs, nm("b", f["pic"] % case["npics"]), dims, f)
                 except KeyError:
                     lab = "noop"
                 applied.append(lab)
@@ -869,13 +888,13 @@ class C23(Spec):
             # --- reference verdict per picture
             expect = []  # per picture: ("identical"|"different"|"meta"|"badsize", counts)
             for i in range(case["npics"]):
-                ma = h_meta(fs, "/sim/a/picture_%d.json" % i)
-                mb = h_meta(fs, "/sim/b/picture_%d.json" % i) or ma
+                ma = h_meta(fs, nm("a", i) + ".json")
+                mb = h_meta(fs, nm("b", i) + ".json") or ma
                 if ma == CORRUPT or mb == CORRUPT:
                     # damaged metadata can never be shown to match
                     expect.append(("corrupt", None))
                     continue
-                ra, rb = fs.get("/sim/a/picture_%d.raw" % i), fs.get("/sim/b/picture_%d.raw" % i)
+                ra, rb = fs.get(nm("a", i) + ".raw"), fs.get(nm("b", i) + ".raw")
                 da, db = h_dims_from_meta(ma), h_dims_from_meta(mb)
                 size_a = sum(w * h * b for (w, h, d, b) in raw_sizes(da).values())
                 size_b = sum(w * h * b for (w, h, d, b) in raw_sizes(db).values())
@@ -897,7 +916,7 @@ class C23(Spec):
                         rc = compare_mod.main(["/sim/a", "/sim/b"])
                         text = out.getvalue()
                     else:
-                        text, rc = compare_mod.compare_pictures("/sim/a/picture_0.raw", "/sim/b/picture_0.raw")
+                        text, rc = compare_mod.compare_pictures(nm("a", 0) + ".raw", nm("b", 0) + ".raw")
                     exc = None
                 except SystemExit as e:
                     rc, exc, text = e.code, None, out.getvalue()
